@@ -92,8 +92,21 @@ func mutationsOf(rng *rand.Rand, c *zkCase, ai int, everyIndex bool) []mutation 
 	}
 	switch argKind(s) {
 	case "point":
-		cv := curveByTag(c.args[0])
+		tag := c.args[0]
+		if tag != "s256" && tag != "ed" {
+			tag = "s256"
+		}
+		cv := curveByTag(tag)
 		p := dPoint(cv, s)
+		// the other point with the same x (same y on edwards): -P
+		fp := cv.Params().P
+		if tag == "ed" {
+			if nx := new(big.Int).Mod(new(big.Int).Neg(p.X()), fp); nx.Cmp(p.X()) != 0 {
+				out = append(out, mutation{"point-negated", ai, -1, ePoint(crypto.NewECPointNoCurveCheck(cv, nx, p.Y()))})
+			}
+		} else if ny := new(big.Int).Mod(new(big.Int).Neg(p.Y()), fp); ny.Cmp(p.Y()) != 0 {
+			out = append(out, mutation{"point-negated", ai, -1, ePoint(crypto.NewECPointNoCurveCheck(cv, p.X(), ny))})
+		}
 		g := crypto.ScalarBaseMult(cv, bi(1))
 		if q, err := p.Add(g); err == nil {
 			out = append(out, mutation{"point+G", ai, -1, ePoint(q)})
